@@ -40,6 +40,10 @@ class HandleModel:
             if isinstance(rng, tuple) and rng[0] == 'adt' and rng[1].endswith('Range'):
                 return [('', ('bytes', f'{buf[1]}[{rng[3][0]!r}..{rng[3][1]!r}]', rng[3][1] - rng[3][0], buf, rng[3][0], rng[3][1]), [])]
             return None
+        if name.endswith('Vec::<T, A>::as_slice') and args and isinstance(args[0], tuple) and args[0][0] == 'buf':
+            buf = args[0]
+            n = sym(f'len({buf[1]})')
+            return [('', ('bytes', f'{buf[1]}[..]', n, buf, Aff(), n), [])]
         if name in SCANNER_POST:
             shape, extra = SCANNER_POST[name]
             view, s = args
